@@ -422,13 +422,37 @@ Qed.
 
 (* ================================================================ Create *)
 
-Lemma default_documented : r_attrs default_resource = doc_defaults /\ r_schema default_resource = [].
-Proof. split; reflexivity. Qed.
+Lemma value_eqb_eq a b : value_eqb a b = true <-> a = b.
+Proof.
+  destruct a, b; cbn; split; intros H; try discriminate; try (inversion H; fail).
+  - apply bytes_eqb_eq in H. now subst.
+  - inversion H. apply bytes_eqb_refl.
+  - apply Z.eqb_eq in H. now subst.
+  - inversion H. apply Z.eqb_refl.
+  - apply eqb_prop in H. now subst.
+  - inversion H. apply eqb_reflx.
+Qed.
+
+Lemma lookup_tlookup k m : lookup k m = tlookup value k m.
+Proof. induction m as [|[k' v] m IH]; cbn; auto; try now rewrite IH. Qed.
+
+(* the default resource holds the documented attributes (in whatever order the code lists them) *)
+Lemma default_documented k : lookup k (r_attrs default_resource) = lookup k doc_defaults.
+Proof. rewrite !lookup_tlookup. apply (tlookup_same value value_eqb value_eqb_eq); reflexivity. Qed.
+Lemma default_schema : r_schema default_resource = [].
+Proof. reflexivity. Qed.
+
+Lemma lookup_last_binding k l : NoDup (keys l) -> lookup k l = last_binding k l.
+Proof.
+  induction l as [|[k' v] l IH]; intros N; [reflexivity|]. inversion N as [|? ? N1 N2]; subst.
+  rewrite last_binding_cons. cbn [lookup]. rewrite <- (IH N2).
+  destruct (bytes_eqb k k') eqn:E; [|destruct (lookup k l); reflexivity].
+  apply bytes_eqb_eq in E. subst k'. apply lookup_none_notin in N1. now rewrite N1.
+Qed.
 
 Lemma lookup_doc_defaults k : lookup k doc_defaults = last_binding k doc_defaults.
 Proof.
-  change doc_defaults with (r_attrs default_resource) at 1. unfold default_resource. cbn [r_attrs].
-  rewrite lookup_map_of_list. reflexivity.
+  apply lookup_last_binding. cbn. repeat constructor; cbn; intuition discriminate.
 Qed.
 
 (* what the three layers say about key k, highest precedence first *)
@@ -448,7 +472,7 @@ Proof.
   rewrite H. cbn [r_attrs]. unfold layered. destruct (lookup k attrs); [reflexivity|].
   destruct (merge_spec_proof default_resource (detect ra sn)) as (H' & _ & _). rewrite H'.
   destruct (detector_spec_proof ra sn k) as (D & _ & _). rewrite D.
-  destruct (env_says ra sn k); [reflexivity|]. destruct default_documented as [-> _]. reflexivity.
+  destruct (env_says ra sn k); [reflexivity|]. apply default_documented.
 Qed.
 
 Lemma merged_schema ra sn attrs schema :
